@@ -527,3 +527,145 @@ Proof. repeat split; reflexivity. Qed.
 
 Lemma geo8_level_offset m : geo8 m = level_offset (Z.of_nat m).
 Proof. unfold level_offset. apply geo8_div. Qed.
+
+(** ** reg2bin returns the smallest containing bin: no finer level has a tile
+    holding both ends. *)
+Lemma spec_reg2bin_loop_char2 n b e s :
+  let r := spec_csi_reg2bin_loop n b e s (geo8 n) in
+  exists m, (m <= n)%nat /\
+    (m = 0%nat -> r = 0) /\
+    ((1 <= m)%nat ->
+       Z.shiftr b (s + 3 * (Z.of_nat n - Z.of_nat m)) = Z.shiftr e (s + 3 * (Z.of_nat n - Z.of_nat m)) /\
+       r = geo8 m + Z.shiftr b (s + 3 * (Z.of_nat n - Z.of_nat m))) /\
+    (forall j, (m < j <= n)%nat ->
+       Z.shiftr b (s + 3 * (Z.of_nat n - Z.of_nat j)) <> Z.shiftr e (s + 3 * (Z.of_nat n - Z.of_nat j))).
+Proof.
+  revert s. induction n as [|n IH]; intros s; cbn [spec_csi_reg2bin_loop].
+  - exists 0%nat. split; [lia|]. split; [reflexivity|]. split; [lia|]. intros j Hj. lia.
+  - destruct (Z.eqb_spec (Z.shiftr b s) (Z.shiftr e s)) as [E|E].
+    + exists (S n). replace (s + 3 * (Z.of_nat (S n) - Z.of_nat (S n))) with s by lia.
+      split; [lia|]. split; [lia|]. split; [auto|]. intros j Hj. lia.
+    + rewrite geo8_step_down. destruct (IH (s + 3)) as (m & Hm & H0 & H1 & Hmin).
+      exists m. split; [lia|]. split; [assumption|]. split.
+      * intros Hm1.
+        replace (s + 3 * (Z.of_nat (S n) - Z.of_nat m)) with (s + 3 + 3 * (Z.of_nat n - Z.of_nat m)) by lia.
+        apply H1. assumption.
+      * intros j Hj. destruct (Nat.eq_dec j (S n)) as [->|Hne].
+        -- replace (s + 3 * (Z.of_nat (S n) - Z.of_nat (S n))) with s by lia. assumption.
+        -- replace (s + 3 * (Z.of_nat (S n) - Z.of_nat j)) with (s + 3 + 3 * (Z.of_nat n - Z.of_nat j)) by lia.
+           apply Hmin. lia.
+Qed.
+
+Lemma csi_bin_smallest_spec b e ms depth :
+  0 <= ms -> 0 <= depth -> 0 <= b < e -> e <= 2 ^ (ms + 3 * depth) ->
+  exists m i, (m <= Z.to_nat depth)%nat /\ spec_csi_reg2bin b e ms depth = geo8 m + i /\
+    bin_lo ms depth (Z.of_nat m) i <= b /\ e <= bin_hi ms depth (Z.of_nat m) i /\
+    forall j i', (m < j <= Z.to_nat depth)%nat ->
+      ~ (bin_lo ms depth (Z.of_nat j) i' <= b /\ e <= bin_hi ms depth (Z.of_nat j) i').
+Proof.
+  intros Hms Hd Hb He. unfold spec_csi_reg2bin. rewrite spec_t0 by assumption.
+  destruct (spec_reg2bin_loop_char2 (Z.to_nat depth) b (e - 1) ms) as (m & Hm & H0 & H1 & Hmin).
+  rewrite Z2Nat.id in * by assumption.
+  assert (Hfiner : forall j i', (m < j <= Z.to_nat depth)%nat ->
+            ~ (bin_lo ms depth (Z.of_nat j) i' <= b /\ e <= bin_hi ms depth (Z.of_nat j) i')).
+  { intros j i' Hj [Hlo Hhi]. apply (Hmin j Hj).
+    unfold bin_lo, bin_hi, level_shift in Hlo, Hhi.
+    assert (Hs : 0 <= ms + 3 * (depth - Z.of_nat j)) by lia.
+    assert (Z.shiftr b (ms + 3 * (depth - Z.of_nat j)) = i').
+    { apply Z.le_antisymm; [apply shiftr_le_iff|apply shiftr_ge_iff]; try assumption; lia. }
+    assert (Z.shiftr (e - 1) (ms + 3 * (depth - Z.of_nat j)) = i').
+    { apply Z.le_antisymm; [apply shiftr_le_iff|apply shiftr_ge_iff]; try assumption; lia. }
+    congruence. }
+  destruct m as [|m'].
+  - exists 0%nat, 0. split; [lia|]. split; [rewrite (H0 eq_refl); reflexivity|].
+    unfold bin_lo, bin_hi, level_shift. replace (depth - Z.of_nat 0) with depth by lia.
+    split; [lia|]. split; [lia|]. exact Hfiner.
+  - destruct (H1 ltac:(lia)) as [E1 E2].
+    exists (S m'), (Z.shiftr b (ms + 3 * (depth - Z.of_nat (S m')))).
+    split; [lia|]. split; [exact E2|].
+    unfold bin_lo, bin_hi, level_shift.
+    assert (Hs : 0 <= ms + 3 * (depth - Z.of_nat (S m'))) by lia.
+    split; [apply shiftr_ge_iff; [assumption|lia]|].
+    split; [|exact Hfiner].
+    assert (e - 1 < (Z.shiftr b (ms + 3 * (depth - Z.of_nat (S m'))) + 1) * 2 ^ (ms + 3 * (depth - Z.of_nat (S m')))).
+    { apply shiftr_le_iff; [assumption|]. rewrite E1. lia. }
+    lia.
+Qed.
+
+(** ** Bin lists never repeat a bin. *)
+Lemma NoDup_app_intro {A} (a b : list A) :
+  NoDup a -> NoDup b -> (forall x, In x a -> ~ In x b) -> NoDup (a ++ b).
+Proof.
+  induction a as [|x a IH]; intros Ha Hb Hd; [assumption|].
+  inversion Ha as [|? ? Hx Ha']; subst. cbn [app]. constructor.
+  - rewrite in_app_iff. intros [H|H]; [contradiction|]. apply (Hd x); [left; reflexivity|assumption].
+  - apply IH; try assumption. intros y Hy. apply Hd. right. assumption.
+Qed.
+
+Lemma geo8_mono m m' : (m <= m')%nat -> geo8 m <= geo8 m'.
+Proof.
+  induction 1 as [|m' _ IH]; [lia|]. cbn [geo8].
+  assert (0 < 8 ^ Z.of_nat m') by (apply Z.pow_pos_nonneg; lia). lia.
+Qed.
+
+Lemma NoDup_spec_reg2bins_loop todo : forall l b e s,
+  0 <= b -> 0 <= s - 3 * (Z.of_nat todo - 1) -> e < 2 ^ (s + 3 * Z.of_nat l) ->
+  NoDup (spec_csi_reg2bins_loop todo (Z.of_nat l) b e s (geo8 l)).
+Proof.
+  induction todo as [|todo IH]; intros l b e s Hb Hs He; cbn [spec_csi_reg2bins_loop]; [constructor|].
+  replace (Z.of_nat l + 1) with (Z.of_nat (S l)) by lia. rewrite geo8_step_up.
+  apply NoDup_app_intro.
+  - apply NoDup_range_incl.
+  - destruct todo as [|todo']; [constructor|].
+    apply IH; try lia.
+    replace (s - 3 + 3 * Z.of_nat (S l)) with (s + 3 * Z.of_nat l) by lia. assumption.
+  - intros k Hk Hin. apply In_range_incl in Hk.
+    apply In_spec_reg2bins_loop in Hin as (m & Hm & Hlo & _).
+    assert (Hs0 : 0 <= s) by lia.
+    pose proof (shiftr_lt_pow e s (3 * Z.of_nat l) Hs0 ltac:(lia) He) as Hlt.
+    rewrite <- pow8_pow2 in Hlt by lia.
+    pose proof (shiftr_nonneg b (s - 3 - 3 * (Z.of_nat m - Z.of_nat (S l))) Hb).
+    pose proof (geo8_mono (S l) m ltac:(lia)) as Hmono. cbn [geo8] in Hmono. lia.
+Qed.
+
+Lemma csi_bins_nodup_spec b e ms depth :
+  0 <= ms -> 0 <= depth -> 0 <= b -> e <= 2 ^ (ms + 3 * depth) ->
+  NoDup (spec_csi_reg2bins b e ms depth).
+Proof.
+  intros Hms Hd Hb He. unfold spec_csi_reg2bins.
+  change (spec_csi_reg2bins_loop (S (Z.to_nat depth)) 0 b (e - 1) (ms + depth * 3) 0)
+    with (spec_csi_reg2bins_loop (S (Z.to_nat depth)) (Z.of_nat 0) b (e - 1) (ms + depth * 3) (geo8 0)).
+  apply NoDup_spec_reg2bins_loop; try lia.
+  replace (ms + depth * 3 + 3 * Z.of_nat 0) with (ms + 3 * depth) by lia. lia.
+Qed.
+
+(** The Go bin list, for every geometry: no repeats, and exactly the bins
+    whose interval meets the query. *)
+Lemma csi_model_bins_exact_gen b e ms depth :
+  0 <= ms -> 0 <= depth <= 10 -> ms + 3 * depth <= 62 ->
+  0 <= b <= 2 ^ (ms + 3 * depth) -> 1 <= e <= 2 ^ (ms + 3 * depth) ->
+  exists l, csi_reg2bins b e ms depth = Ok l /\ NoDup l /\
+    forall k, In k l <->
+      exists m i, (m <= Z.to_nat depth)%nat /\ k = geo8 m + i /\
+        bin_lo ms depth (Z.of_nat m) i < e /\ b < bin_hi ms depth (Z.of_nat m) i.
+Proof.
+  intros. exists (spec_csi_reg2bins b e ms depth).
+  split; [apply csi_reg2bins_is_spec_gen; lia|].
+  split; [apply csi_bins_nodup_spec; lia|].
+  intros k. apply csi_bins_exact_spec; lia.
+Qed.
+
+Lemma bai_model_bins_exact_gen b e :
+  0 <= b < 2 ^ 29 -> 1 <= e <= 2 ^ 29 ->
+  exists l, overlapping_bins_for b e = Ok l /\ NoDup l /\
+    forall k, In k l <->
+      exists m i, (m <= 5)%nat /\ k = geo8 m + i /\
+        bin_lo 14 5 (Z.of_nat m) i < e /\ b < bin_hi 14 5 (Z.of_nat m) i.
+Proof.
+  intros Hb He.
+  destruct (csi_model_bins_exact_gen b e 14 5) as (l & Hl & Hnd & Hin);
+    try (change (2 ^ (14 + 3 * 5)) with (2 ^ 29)); try lia.
+  exists l. destruct (csi_default_is_bai_gen b e Hb He) as [_ E].
+  change csi_DefaultShift with 14 in E. change csi_DefaultDepth with 5 in E.
+  rewrite <- E. split; [assumption|]. split; [assumption|]. exact Hin.
+Qed.
